@@ -23,9 +23,8 @@ Proof. exact points_count. Qed.
 Print Assumptions declared_points_match.
 
 Theorem declared_cell_integers_match : forall (F : Type) (cells : list (wcell (F:=F))),
-  N.of_nat (length (flat_map (fun oc => cell_toks (F:=F) (fst oc) (snd oc)) (combine (offsets cells 0) cells))) + N.of_nat (length cells)
-  = total_ints cells.
-Proof. exact cells_count. Qed.
+  N.of_nat (length (flat_map (fun oc => cell_toks (F:=F) (fst oc) (snd oc)) (combine (offsets cells 0) cells))) = total_ints cells.
+Proof. exact cells_count_tokens. Qed.
 Print Assumptions declared_cell_integers_match.
 
 (* whatever the reader accepts is index-safe: every face of every returned mesh designates three coordinates that
